@@ -16,6 +16,10 @@
        p.data.Get/Set/Len, p.config.bits/create, NewBitStorage and the recursive newContainer.Set are
        PRIMITIVES given by the model's pal_id, pal_value, bs_get, bs_set, blen, cfg_bits, cfg_create,
        bs_new and a parameter for the recursive Set; panics are outcomes;
+     - a writer is the list of bytes written so far (it accepts every Write); pk.VarInt(x).WriteTo(w)
+       appends write32 x; a hashPalette whose map is NOT known to be the last-index view of its values
+       (the receiver of hashPalette.ReadFrom: the map is never cleared) is VHashRaw with the map as an
+       association list, newest binding first;
      - `stuck` (no meaning) for everything else, so that a tie lemma can only hold if the translated
        body stays inside the understood fragment. *)
 From Coq Require Import List String ZArith NArith Bool.
@@ -71,7 +75,18 @@ Inductive val : Type :=
 | VTyped (ty : string) (z : Z)          (* a local of a named integer type: pk.VarInt, pk.UnsignedByte *)
 | VReader (s : list N)                 (* the io.Reader: the bytes not yet consumed (flat semantics) *)
 | VErr (e : N)                         (* a non-nil error (nil is VNil) *)
-| VData (l : list N).                  (* a []uint64 *)
+| VData (l : list N)                   (* a []uint64 *)
+| VWriter (s : list N)                 (* the io.Writer: the bytes written so far; never fails *)
+| VHashRaw (ids : list (Z * Z)) (vals : list Z) (cap pb : Z).
+                                       (* a hashPalette with its map spelled out: (key, index), the first pair of a key wins *)
+
+(* the map of a hashPalette as the model sees it: key -> last index holding it *)
+Fixpoint push_ids (i : Z) (vs : list Z) (ids : list (Z * Z)) : list (Z * Z) :=
+  match vs with [] => ids | v :: t => push_ids (i + 1) t ((v, i) :: ids) end.
+Fixpoint raw_lookup (k : Z) (ids : list (Z * Z)) : option Z :=
+  match ids with [] => None | (x, i) :: t => if x =? k then Some i else raw_lookup k t end.
+Definition raw_of_pal (p : pal) : val :=
+  match p with PHash vals cap pb => VHashRaw (push_ids 0 vals []) vals cap pb | _ => VPal p end.
 
 Definition env := list (string * val).
 
@@ -120,6 +135,8 @@ Definition get_field (v : val) (f : string) : option val :=
       else if String.eqb f "ids" then Some (VIds vals) else None
   | VPalPend vals cap pb _ =>
       if String.eqb f "values" then Some (VSlice vals cap) else if String.eqb f "bits" then Some (VZ pb) else None
+  | VHashRaw _ vals cap pb =>
+      if String.eqb f "values" then Some (VSlice vals cap) else if String.eqb f "bits" then Some (VZ pb) else None
   | VCfg cf =>   (* block.BitsPerBlock / biome.BitsPerBiome: the registry width of the configuration *)
       if String.eqb f "BitsPerBlock" || String.eqb f "BitsPerBiome" then Some (VZ (gbits cf)) else None
   | VCont c =>
@@ -135,6 +152,7 @@ Definition set_field (v : val) (f : string) (x : val) : option val :=
   | VPalPend vals cap pb key, VSlice l c =>
       if String.eqb f "values" && zlist_eqb l (vals ++ [key]) && (c =? cap)
       then Some (VPal (PHash l cap pb)) else None
+  | VHashRaw ids _ _ pb, VSlice l c => if String.eqb f "values" then Some (VHashRaw ids l c pb) else None
   | VPal (PSingle _), VZ z => if String.eqb f "v" then Some (VPal (PSingle z)) else None
   | VCont c, VPal p => if String.eqb f "palette" then Some (VCont (mkPC (cbits c) (ccfg c) p (cdata c))) else None
   | VCont c, VStore d => if String.eqb f "data" then Some (VCont (mkPC (cbits c) (ccfg c) (cpal c) d)) else None
@@ -154,13 +172,18 @@ Definition set_lv (e : env) (lv : gexpr) (x : val) : option env :=
       | None => None
       end
   | ELit _ _ => Some e                   (* the receiver was a temporary (statesCfg{}.bits(n)): nothing to write back *)
+  | ECall _ _ => Some e                  (* a temporary as well: pk.VarInt(x).WriteTo(w) *)
   | _ => None
   end.
 
 (* ---------- method primitives (the model) ---------- *)
-(* what the interpreter is parameterised by: the meaning of the recursive newContainer.Set and the fuel
-   the model's palette reader runs on *)
-Record prims : Type := mkPrims { p_set : pc -> Z -> Z -> pc * outcome; p_rfuel : nat }.
+(* what the interpreter is parameterised by: the meaning of the recursive newContainer.Set and of the palette's
+   ReadFrom behind the interface (the model's pal_read on some fuel: mkPrims; the interpreted palette readers:
+   Proofs/C12_tr2.v) *)
+Record prims : Type := mkPrimsR { p_set : pc -> Z -> Z -> pc * outcome; p_pread : pal -> list N -> fres (pal * N) }.
+(* the palette reader as the model's pal_read run on the given fuel *)
+Definition mkPrims (f : pc -> Z -> Z -> pc * outcome) (fuel : nat) : prims :=
+  mkPrimsR f (fun p s => run_flat (pal_read fuel p) s).
 
 Definition as_int (v : val) : option Z := match v with VZ z => Some z | VTyped _ z => Some z | _ => None end.
 Definition is_err (v : val) : option bool := match v with VNil => Some false | VErr _ => Some true | _ => None end.
@@ -190,7 +213,7 @@ Definition prim (setf : prims) (rv : val) (m : string) (args : list val) : val *
       else if String.eqb m "value" then (rv, match pal_value p a with Some v => PV (VZ v) | None => PP pPal end, None)
       else (rv, PStuck, None)
   | VPal p, [VReader s] =>
-      if String.eqb m "ReadFrom" then read_res (run_flat (pal_read (p_rfuel setf) p) s) VPal rv else (rv, PStuck, None)
+      if String.eqb m "ReadFrom" then read_res (p_pread setf p s) VPal rv else (rv, PStuck, None)
   | VStore d, [VReader s] =>
       if String.eqb m "ReadFrom" then read_res (run_flat (bs_read d) s) VStore rv else (rv, PStuck, None)
   | VTyped ty _, [VReader s] =>
@@ -211,7 +234,12 @@ Definition prim (setf : prims) (rv : val) (m : string) (args : list val) : val *
       else (rv, PStuck, None)
   | VStore d, [VZ i; VZ v] =>
       if String.eqb m "Set" then (VStore (fst (bs_set d i v)), of_outcome (snd (bs_set d i v)), None) else (rv, PStuck, None)
-  | VStore d, [] => if String.eqb m "Len" then (rv, PV (VZ (blen d)), None) else (rv, PStuck, None)
+  | VStore d, [] => if String.eqb m "Len" then (rv, PV (VZ (blen d)), None)
+                    else if String.eqb m "Raw" then (rv, PV (VData (data d)), None) else (rv, PStuck, None)
+  | VTyped ty z, [VWriter w] =>
+      if String.eqb m "WriteTo" && String.eqb ty "pk.VarInt"
+      then (rv, PV (VTup [VZ (zlen (write32 z)); VNil]), Some (VWriter (w ++ write32 z)))
+      else (rv, PStuck, None)
   | VCfg cf, [VZ b] =>
       if String.eqb m "create" then (rv, PV (VPal (cfg_create cf b)), None)
       else if String.eqb m "bits" then (rv, PV (VZ (cfg_bits cf b)), None) else (rv, PStuck, None)
@@ -269,6 +297,9 @@ Fixpoint pure_expr (x : gexpr) : bool :=
   | _ => false
   end.
 
+
+Definition pkg_call (recv : gexpr) (m pkg fn : string) : bool :=
+  match recv with EId p => String.eqb p pkg && String.eqb m fn | _ => false end.
 
 Fixpoint eval (setf : prims) (fuel : nat) (e : env) (x : gexpr) : eres :=
   match fuel with
@@ -384,6 +415,7 @@ Fixpoint eval (setf : prims) (fuel : nat) (e : env) (x : gexpr) : eres :=
             if prefixb "[]" ty then
               match vs with
               | [VZ 0; VZ c] => if 0 <=? c then EV e1 (VSlice [] c) else EP e1 pRt
+              | [VZ n; VZ c] => if (0 <=? n) && (n <=? c) then EV e1 (VSlice (repeat 0 (Z.to_nat n)) c) else EP e1 pRt
               | [v] => match as_int v with
                        | Some c => if 0 <=? c then EV e1 (VSlice (repeat 0 (Z.to_nat c)) c) else EP e1 pRt
                        | None => EStuck
@@ -429,6 +461,18 @@ Fixpoint eval (setf : prims) (fuel : nat) (e : env) (x : gexpr) : eres :=
               end
             else if String.eqb fn "int" || String.eqb fn "T" then
               match vs with [v] => match as_int v with Some z => EV e1 (VZ z) | None => EStuck end | _ => EStuck end
+            else if String.eqb fn "max" then
+              match vs with [VZ a; VZ b] => EV e1 (VZ (Z.max a b)) | _ => EStuck end
+            else if String.eqb fn "uint" then      (* only of a non-negative int: no wrap *)
+              match vs with [VZ a] => if 0 <=? a then EV e1 (VZ a) else EStuck | _ => EStuck end
+            else if String.eqb fn "copy" then      (* copy(dst, src) into a local slice that does not alias src *)
+              match vs, args with
+              | [VSlice ld cd; VSlice ls _], [EId d; _] =>
+                  let k := Nat.min (List.length ld) (List.length ls) in
+                  match upd e1 d (VSlice (firstn k ls ++ skipn k ld) cd) with
+                  | Some e2 => EV e2 (VZ (Z.of_nat k)) | None => EStuck end
+              | _, _ => EStuck
+              end
             else if String.eqb fn "NewBitStorage" then
               match vs with
               | [VZ b; VZ n; VNil] => match bs_new b n None with ROk d => EV e1 (VStore d) | RPanic w => EP e1 w end
@@ -445,6 +489,17 @@ Fixpoint eval (setf : prims) (fuel : nat) (e : env) (x : gexpr) : eres :=
         else if String.eqb msg "level: palette length exceeds its width" then EV e (VErr eBigPal)
         else EStuck
     | ECall (ESel recv m) args =>
+        if pkg_call recv m "pk" "VarInt" || pkg_call recv m "bits" "Len" then
+          (* pk.VarInt(x): the conversion; bits.Len(x) of a non-negative x *)
+          match evs e args with
+          | LV e1 [v] => match as_int v with
+                         | Some z => if pkg_call recv m "pk" "VarInt" then EV e1 (VTyped "pk.VarInt" z)
+                                     else if 0 <=? z then EV e1 (VZ (bit_len z)) else EStuck
+                         | None => EStuck
+                         end
+          | LV _ _ => EStuck | LStuck => EStuck | LP e1 w => EP e1 w
+          end
+        else
         match ev e recv with
         | EV e1 rv =>
             match evs e1 args with
@@ -604,6 +659,8 @@ Fixpoint exec (setf : prims) (fuel : nat) (e : env) (s : gstmt) : sres :=
                     if idx =? zlen vals
                     then match upd e2 h (VPalPend vals cap pb key) with Some e3 => SN e3 | None => SStuck end
                     else SStuck
+                | Some (VHashRaw ids vals cap pb) =>      (* any index: the map is explicit *)
+                    match upd e2 h (VHashRaw ((key, idx) :: ids) vals cap pb) with Some e3 => SN e3 | None => SStuck end
                 | _ => SStuck
                 end
             | EV _ _ => SStuck | EP e2 w => SP e2 w | EStuck => SStuck
@@ -611,7 +668,7 @@ Fixpoint exec (setf : prims) (fuel : nat) (e : env) (s : gstmt) : sres :=
         | EV _ _ => SStuck | EP e1 w => SP e1 w | EStuck => SStuck
         end
     | SAssign [EIndex (ESel (EId p) "values") k] "=" [x] =>
-        (* p.values[k] = x on a linear palette *)
+        (* p.values[k] = x on a linear palette, or on a hashPalette with its map spelled out *)
         match ev e k with
         | EV e1 vk =>
             match ev e1 x with
@@ -620,6 +677,11 @@ Fixpoint exec (setf : prims) (fuel : nat) (e : env) (s : gstmt) : sres :=
                 | Some i, Some z, Some (VPal (PLinear vals cap pb)) =>
                     if (0 <=? i) && (i <? zlen vals)
                     then match upd e2 p (VPal (PLinear (upd_nth vals (Z.to_nat i) z) cap pb)) with
+                         | Some e3 => SN e3 | None => SStuck end
+                    else SP e2 pRt
+                | Some i, Some z, Some (VHashRaw ids vals cap pb) =>
+                    if (0 <=? i) && (i <? zlen vals)
+                    then match upd e2 p (VHashRaw ids (upd_nth vals (Z.to_nat i) z) cap pb) with
                          | Some e3 => SN e3 | None => SStuck end
                     else SP e2 pRt
                 | _, _, _ => SStuck
